@@ -61,6 +61,7 @@ structure Plan where
   reregFail : Option Nat := none
   unregFail : Option Nat := none
   bs : Bs := .none
+  rollback : Bool := true       -- `rb=0`: a failing `register` leaves the earlier sub-registrations in place
   deriving DecidableEq, Repr
 
 /-- what a callback program returns (interpreted per source kind) -/
@@ -305,18 +306,19 @@ def customRollback (k : Nat) : Nat → M Unit
     emit (.reg k .unregister j (match r with | .ok _ => true | .error _ => false))
     customRollback k j
 
-/-- `register` of the instrumented composite source: a failing sub-registration rolls the earlier ones back -/
-def customRegister (k : Nat) (fail : Option Nat) : Nat → Nat → Factory → M Unit
+/-- `register` of the instrumented composite source: a failing sub-registration rolls the earlier ones
+    back, unless the source is of the `?`-propagating kind (`rb = false`) -/
+def customRegister (k : Nat) (fail : Option Nat) (rb : Bool) : Nat → Nat → Factory → M Unit
   | 0, _, _ => pure ()
   | n + 1, j, f => do
     let r ← (if fail == some j then pure (Except.error (Err.io .other)) else catchErr (genRegister k j f))
     match r with
     | .ok f' =>
       emit (.reg k .register j true)
-      customRegister k fail n (j + 1) f'
+      customRegister k fail rb n (j + 1) f'
     | .error e =>
       emit (.reg k .register j false)
-      customRollback k j
+      if rb then customRollback k j
       throwErr e
 
 def timerUnregister (k : Nat) : M Unit := do
@@ -350,7 +352,7 @@ def srcRegister (k : Nat) (f : Factory) : M Unit := do
     match s.kind with
     | .ping | .chan | .gen => do let _ ← genRegister k 0 f
     | .timer => timerRegister k f
-    | .custom => customRegister k s.plan.regFail s.gens.length 0 f
+    | .custom => customRegister k s.plan.regFail s.plan.rollback s.gens.length 0 f
 
 def srcReregister (k : Nat) (f : Factory) : M Unit := do
   match ← getSrc? k with
